@@ -53,7 +53,9 @@ func genLen(r *rand.Rand, gp *GenParams, mode int) int64 {
 		return 0
 	}
 	if gp.PNegLen > 0 && r.Float64() < gp.PNegLen {
-		return -(int64(1+r.Intn(15)) << 16) // -1/16 .. -15/16
+		// -1/32, -3/32, -5/32, -7/32: odd numerators, so that no merge of up to four branches (nor a half of one) is
+		// exactly -1, the value gotree reads as "absent"
+		return -(int64(2*r.Intn(4)+1) << 15)
 	}
 	if gp.LenTies {
 		return int64(1+r.Intn(3)) << 16
